@@ -11,10 +11,46 @@ PYSEM = ('Python semantics assumed by the VC encoding (E1-E6 in DESIGN.md 2.2): 
          'arbitrary-order set/dict iteration, mathematical ints, no monkey-patching, partial correctness only; '
          'z3/cvc5 and the pyvc generator itself are trusted (mitigated by front-end validation and planted defects).')
 
+B = 'bounded stand-in: the contracts of the functions the property depends on, evaluated at run time on the real code over the scope stated in coverage.rule; labelled bounded, never counted as proved. '
 P = {
- 'C13': dict(level='exploration', tech='contracts on DiGraph operations: AST->VC generator (pyvc) + z3; bounded run-time contracts as stand-in',
-             text='Bounded: every digraph <=3 nodes (quick) / <=4 nodes (thorough) x every node subset, plus seeded random graphs, checked against the contract view (V,E)/closure. Deductive obligations, when present in the evidence, are discharged for all graphs.',
-             note='bounded part: scope in evidence; ' + PYSEM, ref='3/C13'),
+ 'C01': dict(level='exploration', ref='3/C01', tech='run-time contract result == sat(K,f) against an independent reference semantics (bounded); pyvc obligations when listed in evidence',
+   text=B + 'CTL.modelcheck against vf/spec/sem.py on every structure <=2 states (3 states sampled/all in thorough) x CTL formulas to depth 2, random beyond.', note='reference semantics vf/spec/sem.py trusted (audited against lasso enumeration); ' + PYSEM),
+ 'C02': dict(level='exploration', ref='3/C02', tech='run-time contract of LTL.modelcheck against the reference semantics with lasso certification (bounded); tableau internals not within deductive reach',
+   text=B + 'LTL.modelcheck on small structures x path formulas with <=3 temporal operators; every excluded verdict certified by a concrete lasso.', note='_build_atoms/_Tableu and the tableau theorem are not proved; reference semantics trusted'),
+ 'C03': dict(level='exploration', ref='3/C03', tech='run-time contract of CTLS.modelcheck against the reference semantics (bounded)',
+   text=B + 'CTLS.modelcheck on small structures x CTL* state formulas (arbitrary path formulas under A/E, quantifier nesting <=2).', note='LTL leg bounded only (C02); reference semantics trusted'),
+ 'C04': dict(level='exploration', ref='3/C04', tech='relational run-time contracts over pairs of calls (agreement of entry points, Boolean/duality/expansion laws); no oracle',
+   text=B + 'agreement of CTL/LTL/CTL* entry points and text/object, and 16 semantic laws, on small and random structures.', note='needs no reference implementation; bounded scope'),
+ 'C05': dict(level='exploration', ref='3/C05', tech='run-time contract of get_equivalent_restricted_formula/LNot: alphabet syntactic, equivalence decided by the reference semantics on a universal structure (bounded)',
+   text=B + 'every rewrite result is in the restricted alphabet, of the same logic, and equivalent (LTL equivalence over 2 atoms decided exactly on the universal 4-state structure; quantified formulas on all <=2-state structures + samples).', note='reference semantics trusted; formulas to depth 2-3'),
+ 'C06': dict(level='exploration', ref='3/C06', tech='metamorphic run-time contracts (renaming, reordering, atom renaming, unreachable states) + fresh interpreters per PYTHONHASHSEED',
+   text=B + '8 presentations per (K,f) and 4 (quick) / 32 (thorough) hash seeds.', note='finite sample of seeds and bijections'),
+ 'C07': dict(level='exploration', ref='3/C07', tech='deep-snapshot frame contracts and repeatability over random interleavings of modelcheck calls',
+   text=B + 'snapshots of structure (incl. object identity of label/successor sets), formula tree, F argument and module/class state after every call; interleaved repetitions return equal results.', note='bounded histories'),
+ 'C08': dict(level='exploration', ref='3/C08', tech='run-time contracts of constructors, cast_to and modelcheck guards against the documented grammars (wf_* written from logics.rst)',
+   text=B + 'operator trees over the union alphabet exhaustive to depth 2, sampled depth 3, x 4 languages x {construct, mixed-language operands, cast_to, modelcheck}; non-formula arguments.', note='documented grammars transcribed in vf/spec/trees.py'),
+ 'C09': dict(level='exploration', ref='3/C09', tech='print->parse round trip with structural comparison; pairwise distinct printed forms (bounded; the parser is a Lark grammar string)',
+   text=B + 'formulas of PL, LTL, CTL*, CTL (in CTL* notation) to depth 2-3, random to depth 5.', note='lark trusted'),
+ 'C10': dict(level='exploration', ref='3/C10', tech='run-time contract of Parser.__call__ + comparison with an independent parser of the documented grammar (bounded)',
+   text=B + 'valid strings cross-fed to all four parsers, token-level mutations, random token sequences, junk characters.', note='lark trusted; documented grammar = fixed transcription vf/spec/docgrammar.py'),
+ 'C11': dict(level='exploration', ref='3/C11', tech='run-time contracts of __eq__/__hash__/clone over all pairs of a formula pool per logic',
+   text=B + 'all ordered pairs of a pool per logic (== iff same tree, symmetry, hash, dict/set key), transitivity on triples, Bool vs bool, clone freshness.', note='bounded pools'),
+ 'C12': dict(level='exploration', ref='3/C12', tech='run-time contract of compute_SCCs (partition + mutual reachability) over all digraphs <=4 nodes; body not within deductive reach',
+   text=B + 'every digraph with <=4 nodes under several insertion orders, sampled 5-node, random <=12 nodes; oracle = closure-based mutual reachability.', note='compute_SCCs body is not proved (iterative Nuutila variant with suspended iterators)'),
+ 'C13': dict(level='exploration', ref='3/C13', tech='contracts on DiGraph operations: AST->VC generator (pyvc) + z3; bounded run-time contracts as stand-in',
+   text=B + 'every digraph <=3 nodes (quick) / <=4 nodes (thorough) x every node subset, plus seeded random graphs, checked against the contract view (V,E)/closure. Deductive obligations, when present in the evidence, are discharged for all graphs.', note='bounded part: scope in evidence; ' + PYSEM),
+ 'C14': dict(level='exploration', ref='3/C14', tech='contracts on Kripke constructor/accessors/clone/get_substructure: pyvc + z3; bounded run-time contracts as stand-in',
+   text=B + 'relations on <=3 states incl. non-total ones x argument shapes x every subset.', note=PYSEM),
+ 'C15': dict(level='exploration', ref='3/C15', tech='run-time contracts of get_fair_states and fair modelcheck against CGP fair semantics (Emerson-Lei reference); known findings attributed through defect models',
+   text=B + 'get_fair_states on every relation <=3 states x every F of <=2 subsets; fair modelcheck on small structures; three recorded findings (KF-C15-1..3) are recognised only when the output equals what the defect model predicts.', note='reference semantics trusted; fairness is largely known-defective on the pinned tree'),
+ 'C16': dict(level='exploration', ref='3/C16', tech='representation-invariant scan + canonicity check after every step of random build/combine/drop/gc histories',
+   text=B + 'seeded histories over pools of OBDDs, 1-4 variables.', note='WeakSet/GC semantics trusted (TB7)'),
+ 'C17': dict(level='exploration', ref='3/C17', tech='denotational run-time contracts of apply/invert/restrict/variables + shape walk (ordered, reduced)',
+   text=B + 'expression pairs over <=4 variables, all orderings, all (v,b), truth tables on all assignments.', note='bounded'),
+ 'C18': dict(level='exploration', ref='3/C18', tech='run-time contracts of the OBDD parser functions and printers (lambda vs expression, synonyms, print round trip, error classes)',
+   text=B + 'expressions to depth 4 over <=4 variables x argument orders; non-Boolean syntax list.', note='ast.parse trusted'),
+ 'C19': dict(level='exploration', ref='3/C19', tech='run-time contract: result is a fresh set of states of K, exact, caller-owned; heterogeneous state/label types',
+   text=B + 'structures with str/tuple/mixed/None/float/frozenset states, non-string and operator-like labels, absent atoms; mutate result and call again.', note='RecursionError not claimed (resource bound)'),
 }
 
 NOT_YET = 'check not built yet in this session (work in progress; see DESIGN.md section 8 build order)'
